@@ -131,6 +131,7 @@ fn run_once(t: &Tmpl, mag: i64) -> Run {
             };
             let bound = stream_bound(bytes.len(), t.w, t.h) + macro_allowance(t, bytes.len());
             let opts = RunOpts {
+                graphics: false,
                 check_geometry: false,
                 budgets: Budgets {
                     work: stream_bound(prefix.len(), t.w, t.h) + bound + 1,
